@@ -29,6 +29,10 @@ META = {
         'over-approximation of binary64). 4/4 only: the renderers do not write '
         'a time signature, so other meters cannot round-trip by design.',
     'engines': ['symex', 'fpk'],
+    'technique':
+        'bounded symbolic execution of the real functions with z3 (reals) + '
+        'NRA lemma L-C06 in the standard model of binary64 generated from the '
+        'ASTs of the seven renderers and of quantize_to_step',
     'functions': [
         ('melodies_lib', 'Melody.to_sequence'),
         ('melodies_lib', 'Melody.from_quantized_sequence'),
@@ -138,6 +142,69 @@ def h_drums(c):
             'same start and end step')
   c.check(d0.steps_per_quarter == d1.steps_per_quarter and
           d0.steps_per_bar == d1.steps_per_bar, 'same resolution')
+
+
+def h_direct(c):
+  """Canonical DrumTrack / Melody built DIRECTLY from an event list (not by
+  the extractor): every step is a solver-closed choice, the canonical-form
+  conditions of the property are assumed (first step holds the first event of
+  its bar-aligned start, no trailing empty step / note-off, no gap of a whole
+  bar), then render -> quantize -> extract must give the same events back.
+  This keeps the round trip honest when the extractor itself is changed."""
+  sl = c.mod('sequences_lib')
+  kind, L, spq, qpm = (c.params['kind'], c.params['L'], c.params['spq'],
+                       c.params['qpm'])
+  start = c.params.get('start', 0)
+  spb = 4 * spq
+  if kind == 'drums':
+    dl = c.mod('drums_lib')
+    opts = [frozenset(), frozenset([36]), frozenset([38, 42])]
+    ev = [c.choice('e%d' % i, opts) for i in range(L)]
+    c.assume(len(ev[0]) > 0 and len(ev[-1]) > 0)
+    # no silent stretch of a whole bar (extraction would end the track there)
+    run = 0
+    for e in ev:
+      run = 0 if e else run + 1
+      c.assume(run < spb)
+    seq0 = dl.DrumTrack(list(ev), start_step=start, steps_per_bar=spb,
+                        steps_per_quarter=spq)
+    rendered = seq0.to_sequence(qpm=qpm)
+    q = sl.quantize_note_sequence(rendered, spq)
+    seq1 = dl.DrumTrack()
+    seq1.from_quantized_sequence(q, start, 1, False, False)
+  else:
+    ml = c.mod('melodies_lib')
+    opts = [ml.MELODY_NO_EVENT, ml.MELODY_NOTE_OFF, 60, 62]
+    ev = [c.choice('e%d' % i, opts) for i in range(L)]
+    c.assume(ev[0] >= 0 and ev[-1] != ml.MELODY_NOTE_OFF)
+    # canonical: a note-off only ends a sounding note; no silent bar
+    sounding = False
+    silent = 0
+    for e in ev:
+      if e == ml.MELODY_NOTE_OFF:
+        c.assume(sounding)
+        sounding = False
+      elif e >= 0:
+        sounding = True
+      silent = 0 if sounding else silent + 1
+      c.assume(silent < spb)
+    # extraction strips the final note-off: a canonical melody ends while its
+    # last note is still sounding
+    c.assume(sounding)
+    seq0 = ml.Melody(list(ev), start_step=start, steps_per_bar=spb,
+                     steps_per_quarter=spq)
+    rendered = seq0.to_sequence(qpm=qpm)
+    q = sl.quantize_note_sequence(rendered, spq)
+    seq1 = ml.Melody()
+    seq1.from_quantized_sequence(q, start, 0, 1, True, False, False)
+  c.check(list(seq1) == list(seq0), 'same events after the round trip')
+  c.check(seq1.start_step == seq0.start_step and
+          seq1.end_step == seq0.end_step, 'same start and end step')
+  c.check(seq1.steps_per_quarter == seq0.steps_per_quarter and
+          seq1.steps_per_bar == seq0.steps_per_bar, 'same resolution')
+  c.cover('events exactly one bar apart',
+          L > spb and bool(ev[0]) and all(
+              (not e) or e == -2 for e in ev[1:spb]))
 
 
 def _chord_seq(c, Kc, S, spq):
@@ -316,6 +383,7 @@ HARNESSES = {
     'h_pianoroll': h_pianoroll,
     'h_performance': h_performance,
     'h_noteperf': h_noteperf,
+    'h_direct': h_direct,
 }
 
 
@@ -708,6 +776,11 @@ def jobs(tier):
       start=0, overlap=True, pitch=[60, 60], budget=600)
   add('h_noteperf', N=2, S=6, sps=100, bins=32)
   add('h_noteperf', N=2, S=6, sps=31, bins=32, start=2)
+  # canonical sequences built without the extractor (one-bar-apart events fit)
+  add('h_direct', kind='drums', L=5, spq=1, qpm=120, budget=600)
+  add('h_direct', kind='drums', L=6, spq=1, qpm=97.3, start=4, budget=600)
+  add('h_direct', kind='melody', L=5, spq=1, qpm=120, budget=600)
+  add('h_direct', kind='melody', L=6, spq=1, qpm=97.3, start=4, budget=900)
   if deep:
     for sps in (10, 31, 100, 250):
       for bins in (0, 1, 4, 32, 127):
